@@ -28,6 +28,7 @@ type Plan struct {
 	After    []int       `json:"after"`              // yields after adding children, per item
 	WaitFor  []int       `json:"wait_for,omitempty"` // per item: after adding its children, f blocks until this child (index into children) has started; -1 none
 	NilItem  int         `json:"nil_item,omitempty"` // 1+index of the item that is represented by an untyped nil (0: none)
+	External []int       `json:"external,omitempty"`  // items that another goroutine adds while Do runs (the first initial item's f waits for that goroutine, so they are all added during the run)
 	Sibling  int         `json:"sibling,omitempty"`   // >0: an earlier Work runs to completion first, then a second Work with this many items of its own runs beside the main one
 	SlowItem int         `json:"slow_item,omitempty"` // 1+index of an item whose f takes SlowMs of simulated time (it sleeps on the fake clock)
 	SlowMs   int         `json:"slow_ms,omitempty"`
@@ -105,6 +106,9 @@ func genPlan(t *rapid.T, tier string) any {
 		// far more workers than items (n is the caller's choice; a build machine with hundreds of cores passes hundreds)
 		p.Workers = rapid.SampledFrom([]int{64, 255, 256, 257, 300}).Draw(t, "hugeworkers")
 	}
+	if len(p.Initial) > 0 && rapid.IntRange(0, 5).Draw(t, "external") == 0 {
+		p.External = rapid.SliceOfN(rapid.IntRange(0, n-1), 1, 4).Draw(t, "externalitems")
+	}
 	if rapid.IntRange(0, 7).Draw(t, "sibling") == 0 {
 		// Work values are independent of each other: one used up earlier, and another in use at the same time
 		p.Sibling = rapid.IntRange(1, 6).Draw(t, "siblingitems")
@@ -121,6 +125,7 @@ func genPlan(t *rapid.T, tier string) any {
 func closure(p *Plan) map[int]bool {
 	seen := map[int]bool{}
 	todo := append([]int(nil), p.Initial...)
+	todo = append(todo, p.External...)
 	for len(todo) > 0 {
 		i := todo[len(todo)-1]
 		todo = todo[:len(todo)-1]
@@ -214,6 +219,16 @@ func run(t *testing.T, plan any, keep bool) *simcheck.Outcome {
 		for _, i := range p.Initial {
 			w.Add(key(i))
 		}
+		adderDone := len(p.External) == 0
+		if !adderDone {
+			s.Go("adder", 0, func() {
+				defer func() { adderDone = true }()
+				for _, i := range p.External {
+					simrt.Yield("adder")
+					w.Add(key(i))
+				}
+			})
+		}
 		w.Do(p.Workers, func(item any) {
 			i := p.NilItem - 1
 			if item != nil {
@@ -243,6 +258,10 @@ func run(t *testing.T, plan any, keep bool) *simcheck.Outcome {
 			}
 			if inflight > p.Workers {
 				out.Violate("over-parallel", "%d calls of f in progress with n=%d", inflight, p.Workers)
+			}
+			if len(p.External) > 0 && i == p.Initial[0] && !adderDone {
+				// keeps the run going until the other goroutine has added everything it wants to add
+				simrt.Block("f.wait-for-adder", func() bool { return adderDone })
 			}
 			for k := 0; k < p.Before[i]; k++ {
 				simrt.Yield("f.before")
@@ -317,7 +336,7 @@ func run(t *testing.T, plan any, keep bool) *simcheck.Outcome {
 var harness = &simcheck.Harness{
 	Property: "C09",
 	Level:    "exploration",
-	Rule: "rapid draws a worker count (1-4, rarely 64-300), an item graph (children lists with duplicates, self loops and cycles; a quarter of the plans are wide: 1-2 workers, 12-40 items, long initial backlog, fan-out up to 24; a tenth are bursts: 66-140 items queued at one time, before Do or by the first call of f, then drained; one item may be the untyped nil; one call of f may take 1 ms to 61 s of simulated time; an eighth of the plans use up another Work first and run a second Work beside the main one), the initial adds, " +
+	Rule: "rapid draws a worker count (1-4, rarely 64-300), an item graph (children lists with duplicates, self loops and cycles; a quarter of the plans are wide: 1-2 workers, 12-40 items, long initial backlog, fan-out up to 24; a tenth are bursts: 66-140 items queued at one time, before Do or by the first call of f, then drained; one item may be the untyped nil; one call of f may take 1 ms to 61 s of simulated time; another goroutine may add items while Do runs; an eighth of the plans use up another Work first and run a second Work beside the main one), the initial adds, " +
 		"yield counts inside f, rendezvous points (a call of f waits until a child it added has started; at most n-1 items may wait), and a schedule (pct with change points / uniform random / sticky); a case is non-trivial when at least two " +
 		"different runner tasks executed f, and distinct by the hash of its full decision trace (task, seam) sequence",
 	Gen:     genPlan,
